@@ -215,7 +215,7 @@ def run_pipeline(tier, replay_behaviours=None):
         core.log("kadreplay[%s]: %s" % (fam, out.strip()))
         with open(p) as f:
             b0 = json.loads(f.readline())
-        return fam, tr, core.validate_trace("KadCacheTrace", FAMILIES[fam][4], tr, nshards=1, chunk=30000,
+        return fam, tr, core.validate_trace("KadCacheTrace", FAMILIES[fam][4], tr, nshards=1, chunk=(3000 if fam == "k32" else 30000),
                                             files={"KadCacheTraceU.tla": universe_module(b0["keys"], b0["queries"])})
 
     def dist_validate():
